@@ -20,7 +20,8 @@ RULE = ("MC: McpGateMC, every row of the gating table and every argument-shape r
         "table (role monotone, flag off never allows, tools/list consistent with tools/call, mutating needs principal, actor "
         "mismatch refused, default read-only, families as documented: 31 tools = 14 read + 11 operate + 6 admin); GEN: TLC prints "
         "the complete table (35 names x 3 roles x 4 flag combinations x principal present/absent x actor absent/equal/different "
-        "= 2520 rows) plus the argument-shape rows (foreign / ../ / symlinked paths and pid files, unknown keys, wrong types, "
+        "= 2520 rows), every tool name under 5 near-miss spellings (white-space padded, upper case) with the tool's own valid "
+        "arguments under all 24 server configurations (3720 rows: a name that is not exactly a tool name is not a tool) plus the argument-shape rows (foreign / ../ / symlinked paths and pid files, unknown keys, wrong types, "
         "actor variants, config content that does not parse / compile, write modes, malformed arguments member, Admin-proxy "
         "backend, servers started with an empty --config / --pid-file / --db) under four server configurations; EXEC: each row on a real mcp.Server over stdio JSON-RPC (L1, in-process, "
         "wired as internal/app/mcp.go) and on the real binary `hookaido mcp serve` (L2) in a private scratch environment; TV: "
@@ -140,6 +141,8 @@ def signature(check, e):
         return "mcp/%s/%s" % (check, conf)
     sig = "mcp/%s/%s/%s/%s/%s" % (check, r["tool"] or "(empty)", conf,
                                   e["real"]["actor"] if r["shape"] == "random" else r["actor"], r["shape"])
+    if r.get("spell", "exact") != "exact":
+        sig += "/name-" + r["spell"]
     if r["shape"] == "random":
         sig += "/%s-%s-%s-%s" % (e["real"]["path"], e["real"]["pid"], "extra" if e["real"]["extra"] else "noextra", e["real"]["mode"])
     return sig
@@ -148,10 +151,10 @@ def signature(check, e):
 def describe(check, e):
     r = e["row"]
     au = ", ".join(a["result"] for a in e["audits"]) or "none"
-    return ("[%s] check '%s' failed: tool=%r role=%s enable-mutations=%s enable-runtime-control=%s principal=%s actor=%s shape=%s; "
+    return ("[%s] check '%s' failed: name=%r tool=%r role=%s enable-mutations=%s enable-runtime-control=%s principal=%s actor=%s shape=%s; "
             "observed %s (isError=%s rpc_error=%s) audit=[%s] listed=%d tools effect=%s cfg_changed=%s db_changed=%s spawned=%s "
             "foreign_changed=%s admin_posts=%s args=%s" % (
-                e.get("layer", "L1"), check, r["tool"], r["role"], r["mut"], r["rc"], r["principal"], r["actor"], r["shape"], e["obs"], e["is_error"],
+                e.get("layer", "L1"), check, e.get("wire_name", r["tool"]), r["tool"], r["role"], r["mut"], r["rc"], r["principal"], r["actor"], r["shape"], e["obs"], e["is_error"],
                 e["rpc_error"], au, len(e["listed"]), e["effect"], e["cfg_after"] != e["cfg_before"], e["db_after"] != e["db_before"],
                 e["spawned"], e["foreign_changed"], e.get("admin_posts", 0), e["args_json"][:300]))
 
@@ -317,9 +320,11 @@ def run(ctx):
     # layer L2: the same rows against the real binary (`hookaido mcp serve`: flag parsing and wiring of internal/app/mcp.go,
     # audit sink = stderr); quick: the gating table proper, thorough: the argument-shape rows as well
     if ctx.quick:   # the actor dimension is decided inside the tool, it does not depend on the wiring
-        l2 = [r for r in rows if r["shape"] == "minimal" and r["actor"] == "absent"]
+        l2 = [r for r in rows if r["shape"] == "minimal" and r["actor"] == "absent" and r["spell"] == "exact"]
+        l2 += [r for r in rows if r["spell"] == "trail_space" and r["lab"]["mode"] != "none" or r["spell"] == "upper" and r["lab"]["pid"] != "none"]
         l2 += [r for r in rows if r["shape"] in ("actor_case", "pid_foreign", "path_foreign", "content_nocompile_write",
-                                                 "nocfg_path_newdir", "nocfg_path_scratch", "nopid_pid_scratch", "nodb_minimal")]
+                                                 "nocfg_path_newdir", "nocfg_path_scratch", "nopid_pid_scratch", "nodb_minimal",
+                                                 "path_case_base", "pid_case_base")]
     else:
         l2 = [r for r in rows if r["shape"] != "random"] + [r for r in rows if r["shape"] == "random"][:3000]
     l2_file = os.path.join(ctx.scratch, "rows-l2.ndjson")
